@@ -482,8 +482,9 @@ func corpus() []Case {
 	// untyped playlist that already carries ENDLIST: starts third from last
 	out = append(out, Case{Profile: "corpus-untyped-endlist", Format: "ts", Streams: []Stream{{Ref: "http://stub.test/s0-pl.m3u8",
 		History: []Playlist{a.playlist(0, 6, 0, true, ""), a.playlist(0, 6, 1, true, ""), a.playlist(0, 6, 2, true, "")}}}})
-	// the witness of Props/C11.v c11_eos_refuted: segments 0..2 served three times (the client fetches
-	// 0, 1, 2), then ENDLIST is added without a new segment
+	// the witness of the former finding C11-F11 (fixed by 3b9aa17; Proofs/ClientSelMain.v
+	// ex_eos_endlist_after_last): segments 0..2 served three times (the client fetches 0, 1, 2), then
+	// ENDLIST is added without a new segment. Kept first in the corpus: it must end with EOS.
 	out = append(out, Case{Profile: "corpus-eos-endlist-late", Format: "ts", Streams: []Stream{{Ref: "http://h/s0-pl.m3u8",
 		History: []Playlist{a.playlist(0, 3, 0, false, ""), a.playlist(0, 3, 1, false, ""), a.playlist(0, 3, 2, false, ""),
 			a.playlist(0, 3, 3, true, "")}}}})
